@@ -498,6 +498,11 @@ def pv(x):
     raise Unmodelled(f'value of type {type(x).__name__} containing Enum members')
 
 
+def pv_dict(d):
+    """a vine / tree / edge dict itself is always a PDict (even when, unfitted, it holds no Enum member)"""
+    return '(PDict [' + '; '.join(f'({coq_str(k)}, {pv(v)})' for k, v in d.items()) + '])'
+
+
 KNOWN_SEEDS = [0, 1, 2, 3, 4, 5, 7, 9, 11, 42, 99, 123]
 _SEED_STATES = {}
 
